@@ -9,6 +9,7 @@ Driver for C06 (GLM fitting).  Request:
 Reply:
   `= <ok:0|1> <coef vec> <deviance> <dispersion|P> <covariance vec|P> <std errors vec|P> <predict(x) vec|P> <aic> <bic> <score(x,y)|P>`
   `glm2 <family> alpha tol maxiter <problem 1> <problem 2>` (problem = n p x y w off): one object fitted twice, reply for the second fit
+  `setcoef <family> <mode> alpha tol maxiter <coef vec> <problem 1> [<problem 2>]`, `fam <family> <method> <args>` (see below)
   (`P` = that accessor panicked) or `! panic` when `fit` itself panics.
 -/
 open Cv Cv.Glm
@@ -39,10 +40,37 @@ def c06Problem : P (List Float × List Float × Option (List Float) × Option (L
   let w ← c06Opt; let off ← c06Opt
   pure (x, y, w, off)
 
-def c06Report (r : Fit Float) (x y : List Float) : String :=
+def c06ReportBody (r : Fit Float) (x y : List Float) : String :=
   let disp := match dispersion r with | some d => showFloat d | none => "P"
   let sc := match score r x y with | some d => showFloat d | none => "P"
-  ok s!"{showBool r.ok} {showVec r.coef} {showFloat r.deviance} {disp} {c06ShowOptVec (coefCovariance Cv.invertMatrix r)} {c06ShowOptVec (coefStandardError Cv.invertMatrix r)} {c06ShowOptVec (predict r x)} {showFloat (aic r)} {showFloat (bic r)} {sc}"
+  s!"{showBool r.ok} {showVec r.coef} {showFloat r.deviance} {disp} {c06ShowOptVec (coefCovariance Cv.invertMatrix r)} {c06ShowOptVec (coefStandardError Cv.invertMatrix r)} {c06ShowOptVec (predict r x)} {showFloat (aic r)} {showFloat (bic r)} {sc}"
+
+def c06Report (r : Fit Float) (x y : List Float) : String := ok (c06ReportBody r x y)
+
+/-- one step of an object history: `alpha tol maxiter <0 | 1 len coef…> <problem>` =
+`set_penalty; set_tolerance; [set_weights]; [set_offset]; [set_coef]; fit` on the SAME object -/
+abbrev C06HistStep := Float × Float × Nat × Option (List Float) × List Float × List Float × Option (List Float) × Option (List Float)
+
+def c06HistStep : P C06HistStep := do
+  let alpha ← pFloat; let tol ← pFloat; let mi ← pNat
+  let c ← c06Opt
+  let (x, y, w, off) ← c06Problem
+  pure (alpha, tol, mi, c, x, y, w, off)
+
+/-- The state that survives between two fits of one `GLM` object: the weights and offsets that were set (every other
+field is overwritten by `fit`; `set_coef` before a `fit` has no effect because `fit` re-initialises the coefficients).
+`none` = a step panicked. -/
+def c06RunHist (fam : Family) : List C06HistStep → Option (List Float) → Option (List Float) → Option (List String)
+  | [], _, _ => some []
+  | (alpha, tol, mi, _, x, y, w, off) :: rest, w0, o0 =>
+    let w' := w <|> w0
+    let o' := off <|> o0
+    match fit (α := Float) Cv.solve fam x y w' o' alpha tol mi with
+    | none => none
+    | some r =>
+      match c06RunHist fam rest w' o' with
+      | none => none
+      | some reps => some (c06ReportBody r x y :: reps)
 
 def c06Step (args : List String) : String :=
   match args with
@@ -72,6 +100,71 @@ def c06Step (args : List String) : String :=
           match fit (α := Float) Cv.solve fam x2 y2 (w2 <|> w1) (o2 <|> o1) alpha tol mi with
           | none => panicked
           | some r => c06Report r x2 y2
+  -- `fit(problem 1) -> set_coef(c) -> report` (mode 0), `set_coef(c)` on a fresh object `-> coef, deviance, predict` (mode 1),
+  -- `fit(problem 1) -> set_coef(c) -> fit(problem 2) -> report` (mode 2), `set_coef(c) -> fit(problem 1) -> report` (mode 3)
+  | "setcoef" :: famS :: rest =>
+    match c06Family famS with
+    | none => badOp
+    | some fam =>
+      withArgs (do
+        let mode ← pNat
+        let alpha ← pFloat; let tol ← pFloat; let mi ← pNat
+        let c ← pVec
+        let p1 ← c06Problem
+        let p2 ← if mode = 2 then (do let q ← c06Problem; pure (some q)) else pure none
+        pure (mode, alpha, tol, mi, c, p1, p2)) rest fun (mode, alpha, tol, mi, c, (x1, y1, w1, o1), p2) =>
+        match mode with
+        | 0 =>
+          match fit (α := Float) Cv.solve fam x1 y1 w1 o1 alpha tol mi with
+          | none => panicked
+          | some r => c06Report (setCoef r c) x1 y1
+        | 1 => ok s!"{showVec c} P P"     -- never fitted: `deviance()` is Err, `predict` unwraps `p = None`
+        | 2 =>
+          match p2 with
+          | none => badOp
+          | some (x2, y2, w2, o2) =>
+            match fit (α := Float) Cv.solve fam x1 y1 w1 o1 alpha tol mi with
+            | none => panicked
+            | some _ =>
+              match fit (α := Float) Cv.solve fam x2 y2 (w2 <|> w1) (o2 <|> o1) alpha tol mi with
+              | none => panicked
+              | some r => c06Report r x2 y2
+        | 3 =>
+          match fit (α := Float) Cv.solve fam x1 y1 w1 o1 alpha tol mi with
+          | none => panicked
+          | some r => c06Report r x1 y1
+        | _ => badOp
+  -- object history: k fits on one object, a report after every fit, joined by ` ; `
+  | "hist" :: famS :: rest =>
+    match c06Family famS with
+    | none => badOp
+    | some fam =>
+      withArgs (do let k ← pNat; pMany c06HistStep k) rest fun steps =>
+        match c06RunHist fam steps none none with
+        | none => panicked
+        | some reps => ok (" ; ".intercalate reps)
+  -- the methods of `ExponentialFamily`, called directly
+  | "fam" :: famS :: meth :: rest =>
+    match c06Family famS with
+    | none => badOp
+    | some fam =>
+      match meth with
+      | "has_dispersion" => withArgs (pure ()) rest fun _ => ok (showBool fam.hasDispersion)
+      | "variance" => withArgs pVec rest fun mu => ok (showVec (variance fam mu))
+      | "inv_link" => withArgs pVec rest fun eta => ok (showVec (invLink fam eta))
+      | "d_inv_link" => withArgs (do let e ← pVec; let m ← pVec; pure (e, m)) rest fun (e, m) =>
+          ok (showVec (dInvLink fam e m))
+      | "deviance" => withArgs (do let y ← pVec; let m ← pVec; pure (y, m)) rest fun (y, m) =>
+          match deviance fam y m with | some d => ok (showFloat d) | none => panicked
+      | "penalized_deviance" =>
+          withArgs (do let y ← pVec; let m ← pVec; let a ← pFloat; let c ← pVec; pure (y, m, a, c)) rest
+            fun (y, m, a, c) =>
+              match penalizedDeviance fam y m a c with | some d => ok (showFloat d) | none => panicked
+      | "iwr" => withArgs pVec rest fun y =>
+          match initialWorkingResponse fam y with | some v => ok (showVec v) | none => ok "none"
+      | "iww" => withArgs pVec rest fun y =>
+          match initialWorkingWeights fam y with | some v => ok (showVec v) | none => ok "none"
+      | _ => badOp
   | _ => badOp
 
 def main (args : List String) : IO UInt32 := mainWith () (fun _ t => ((), c06Step t)) args
